@@ -53,6 +53,15 @@ static void check_deser(Ctx& c, Rng& r) {
     c.outcome("deser-int");
     if (y.k != MVal::Int || y.mag != (uint64_t)li.mag || y.neg != (li.neg && li.mag != 0))
       c.violation("integer-literal-not-exact", "integer literal " + lit + " parsed to " + describe(y), wit);
+    // the same number read as a floating-point value: within one rounding of what the text denotes, whatever integer storage it got
+    {
+      long double want = li.neg ? -(long double)li.mag : (long double)li.mag;
+      double gd = v.as<double>(); float gf = v.as<float>();
+      long double tol_d = kUseDouble ? 2e-16L : 1e-7L;
+      if (fabsl((long double)gd - want) > tol_d * fabsl(want)) c.violation("integer-literal-as-double", "integer literal " + lit + " reads as<double>() = " + std::to_string(gd), wit);
+      if (fabsl((long double)gf - want) > 1e-7L * fabsl(want)) c.violation("integer-literal-as-double", "integer literal " + lit + " reads as<float>() = " + std::to_string(gf), wit);
+      c.count("integer_literals_read_as_floating");
+    }
     return;
   }
   c.outcome("deser-float");
